@@ -112,6 +112,8 @@ func runImpl(ops []string) (lines []string, panicked string) {
 				d := uint8(pu(f[3]))
 				dist = &d
 			}
+			dirty = true
+			emitState() // the model judges the proposal against the parameters in force
 			acc := e.changeParams(w, opt(f[1]), opt(f[2]), dist)
 			lines = append(lines, fmt.Sprintf("change %s %s %s %s", f[1], f[2], f[3], b01(acc)))
 			dirty = true
